@@ -2,7 +2,7 @@
 """Regenerate harness/go.mod and go.sum from /repo's (the harness builds against the current
 working tree of /repo through a replace directive)."""
 import re, sys, shutil, os
-repo = os.environ.get("VERIF_REPO", "/repo")
+repo = os.environ.get("VERIF_REPO") or "/repo"
 dst = sys.argv[1]
 src = open(os.path.join(repo, "go.mod")).read()
 blocks = re.findall(r"require \((.*?)\)", src, re.S)
